@@ -257,6 +257,34 @@ impl RealNet {
         }
     }
 
+    /// store arbitrary bytes on node i straight through its record store (no header parsing, no validation):
+    /// what a faulty or malicious holder may serve
+    pub fn seed_raw(&self, i: usize, record: Record) -> Result<(), String> {
+        let key = record.key.clone();
+        let want = record.value.clone();
+        let rec2 = record.clone();
+        let res = self.with_driver(i, move |d| {
+            let h = xor_name::XorName::from_content(&rec2.value);
+            match d.verif_store_mut() {
+                Some(s) => s.verif_put_verified(rec2, RecordType::NonChunk(h)).map_err(|e| format!("{e:?}")),
+                None => Err("no node record store".to_string()),
+            }
+        })?;
+        res?;
+        let t0 = Instant::now();
+        loop {
+            if let Some(r) = self.local(i, &key)? {
+                if r.value == want {
+                    return Ok(());
+                }
+            }
+            if t0.elapsed() > OP_TIMEOUT {
+                return Err(format!("node {i}: raw-seeded record not readable within {OP_TIMEOUT:?}"));
+            }
+            std::thread::sleep(Duration::from_millis(10));
+        }
+    }
+
     pub fn put(&self, record: Record, to: Option<Vec<PeerId>>, verify: Option<(VerificationKind, GetRecordCfg)>) -> Result<(), String> {
         let cfg = PutRecordCfg { put_quorum: Quorum::One, retry_strategy: None, use_put_record_to: to, verification: verify };
         let client = self.client.clone();
